@@ -98,6 +98,8 @@ def build_case(rng, root):
     if ninc >= 2 and len(set(slots)) < len(slots):
         feats.add('adjacent_includes')
     cart_lines = []
+    made = []
+    reuse_stored = {}
     expected = [[]]   # alternatives (for .p8.png raw newline)
     desc = []
     missing = False
@@ -105,12 +107,19 @@ def build_case(rng, root):
     for pos in range(nlines + 1):
         while inc_i < ninc and slots[inc_i] == pos:
             inc_i += 1
-            kind = rng.choice(('lua', 'lua', 'p8', 'p8', 'png'))
-            sub = rng.choice(('', '', 'lib/', 'lib/deep/'))
-            name = '%s%s%d' % (sub, rng.choice(('inc', 'mod_', 'T')), inc_i)
-            tabs = rng.choice((0, 0, 1, 3)) if kind != 'lua' else 0
-            fin = rng.random() < 0.6
-            code = make_code(rng, tabs, fin, nested=rng.random() < 0.3)
+            reuse = None
+            if made and rng.random() < 0.3:
+                reuse = rng.choice(made)     # the same file included again (possibly another tab)
+                feats.add('same_target_twice')
+            if reuse:
+                kind, name, tabs, fin, code = reuse
+            else:
+                kind = rng.choice(('lua', 'lua', 'p8', 'p8', 'png'))
+                sub = rng.choice(('', '', 'lib/', 'lib/deep/'))
+                name = '%s%s%d' % (sub, rng.choice(('inc', 'mod_', 'T')), inc_i)
+                tabs = rng.choice((0, 0, 1, 3)) if kind != 'lua' else 0
+                fin = rng.random() < 0.6
+                code = make_code(rng, tabs, fin, nested=rng.random() < 0.3)
             sel = None
             if kind != 'lua' and rng.random() < 0.6:
                 sel = rng.randint(0, tabs + 1)
@@ -118,10 +127,13 @@ def build_case(rng, root):
             ext = {'lua': '.lua', 'p8': '.p8', 'png': '.p8.png'}[kind]
             path = os.path.join(cartdir, name + ext)
             os.makedirs(os.path.dirname(path), exist_ok=True)
-            is_missing = rng.random() < 0.06
+            is_missing = rng.random() < 0.06 and not reuse
             regions, _ = carts.random_regions(rng, 'zero')
             stored = code
-            if not is_missing:
+            if reuse:
+                stored = reuse_stored[name + ext]
+            elif not is_missing:
+                made.append((kind, name, tabs, fin, code))
                 if kind == 'lua':
                     put(path, code)
                 elif kind == 'p8':
@@ -136,6 +148,7 @@ def build_case(rng, root):
                         feats.add('png_raw')
                         stored = code + b'\n'    # the reader appends a line break to raw code
                     put(path, rc.write_p8png(regions, area, 8))
+                reuse_stored[name + ext] = stored
             else:
                 missing = True
                 feats.add('missing_target')
@@ -250,7 +263,7 @@ def gates(m, tier):
     missed = []
     for k in ('target_lua', 'target_p8', 'target_png', 'target_in_subdir', 'target_no_final_newline', 'tab_selector_inner', 'tab_selector_last',
               'tab_selector_beyond', 'include_first_line', 'include_last_line', 'adjacent_includes', 'several_includes', 'nested_include_literal',
-              'directive_whitespace_variant', 'missing_target', 'png_raw', 'png_compressed', 'includes_0'):
+              'directive_whitespace_variant', 'missing_target', 'png_raw', 'png_compressed', 'includes_0', 'same_target_twice'):
         if f.get(k, 0) < 5:
             missed.append('%s seen %d times' % (k, f.get(k, 0)))
     if mon.get('splices_compared', 0) < 200:
